@@ -114,8 +114,8 @@ func idxAlphabet(extra bool) (calls []e1.Call, ids [][]interface{}) {
 		uniq(bD("a", int32(1)), idxOpt{unique: true, name: "other"})        // same key under another name
 		add(cCreateIndex("d", "c", bD("b", int32(1)), idxOpt{name: "a_1"})) // same name, other key
 		add(cCreateIndex("d", "c", bD("b", int32(-1)), idxOpt{}))
-		uniq(bD("a", int32(1)), idxOpt{unique: true, name: "part"})                                         // name and key of "part" without its partial filter
-		uniq(bD("a", int32(1)), idxOpt{unique: true, partial: bD("b", bD("$gt", int32(0)))})                // name and key of a_1 with a partial filter
+		uniq(bD("a", int32(1)), idxOpt{unique: true, name: "part"})                                        // name and key of "part" without its partial filter
+		uniq(bD("a", int32(1)), idxOpt{unique: true, partial: bD("b", bD("$gt", int32(0)))})               // name and key of a_1 with a partial filter
 		uniq(bD("a", int32(1)), idxOpt{unique: true, partial: bD("b", bD("$gt", int32(1))), name: "part"}) // another partial filter
 		add(cCreateIndex("d", "c", bD("t", int32(1)), idxOpt{expire: i32(3600)}))
 		add(cDropIndex("d", "c", "_id_"))
